@@ -40,7 +40,7 @@ let run_cmd (cmd : string) (args : string list) : string =
     (match decode_bucketmeta (bytes_of_tok file) with
      | BmOk b -> String.concat " " ["ok"; tok_of_bytes b.bm_start; tok_of_bytes b.bm_end]
      | BmErr k -> "err " ^ show_err k)
-  | _ -> failwith ("unknown command: " ^ cmd)
+  | _ -> Hist.run_cmd cmd args
 
 let split_line (l : string) : string * string =
   (* returns (call part, impl result part) split at the first " = " *)
